@@ -16,6 +16,17 @@ from .space import workers_default
 _STEP = None
 
 
+def _guard_mem():
+    import resource
+
+    from mc.space import WORKER_AS_LIMIT
+
+    try:
+        resource.setrlimit(resource.RLIMIT_AS, (WORKER_AS_LIMIT, WORKER_AS_LIMIT))
+    except (ValueError, OSError):
+        pass
+
+
 def _do(hists):
     out = []
     for h in hists:
@@ -48,7 +59,7 @@ def bfs(run, step, max_depth, workers=None, chunk=16, label="", full_depth=0, bu
     longest = []
     budget_hit = False
     ctx = mp.get_context("fork")
-    pool = ctx.Pool(workers) if workers > 1 else None
+    pool = ctx.Pool(workers, initializer=_guard_mem) if workers > 1 else None
     try:
         while frontier and depth < max_depth:
             depth += 1
